@@ -79,6 +79,13 @@ def alphabet(tier: str, variant: str = "main") -> Tuple[List[List[tuple]], List[
               [SX(120, FL), TX(120, FL), A1(120, FL)], [PX(0), PY(4500)], [A1(120), A1U(60)]]
         steps = [1, 999, 1000, 1001, 1999, 2000, 2001, 9999, 10000, 10001, 119999, 120000, 120001,
                  1124999, 1125000, 4500000]
+    if variant == "c06":
+        # several record sets with the cache-flush bit in one datagram, most of them for names the cache has never heard of
+        # (a host announces a changed address together with the records of new instances): every set is flushed on its own
+        def TN(k: int) -> tuple:
+            return ("TXT", f"n{k}._a._tcp.local.", FL, 120, b"\x01n")
+        d.append([A2(120, FL), TN(1), TN(2), TN(3), TN(4)])
+        d.append([TN(5), TN(6), TX2(120, FL), TN(7), TN(8)])
     return d, steps
 
 
@@ -183,7 +190,7 @@ class Search:
         self.prop = prop
         self.tier = tier
         self.config = config  # passive | remove:RX | remove:XR | add:RX | add:XR
-        self.dgrams, self.steps = alphabet(tier)
+        self.dgrams, self.steps = alphabet(tier, "c06" if prop == "C06" else "main")
         self.events: List[tuple] = [("d", i) for i in range(len(self.dgrams))] + [("t", s) for s in self.steps]
 
     def describe(self, hist: Any) -> list:
